@@ -182,59 +182,78 @@ func truncate(s string, n int) string {
 // []*Pod clean-up list) appends to that list only failed pods, pods of nodes not in the map, or
 // the duplicates computed by the duplicate filter.
 func c02Cleanup(r *Run, reach map[*ssa.Function]bool) {
+	// The mapping function is found from what it feeds: the value stored into
+	// strategy.Parameters.PodToCleanUp is result #k of a repository function.
+	type site struct {
+		fn  *ssa.Function
+		idx int
+	}
+	var sites []site
 	for _, fn := range sortedFuncs(reach) {
-		callsFitness := false
-		for _, c := range callsIn(fn) {
-			if calleeName(c.Common()) == pkgSched+".CheckNodeFitness" {
-				callsFitness = true
-			}
-		}
-		if !callsFitness || fn.Signature.Results().Len() < 3 {
-			continue
-		}
-		ff := computeFacts(fn)
-		// result #2 is the clean-up list ([]*Pod)
-		for _, b := range fn.Blocks {
-			ret := returnOf(b)
-			if ret == nil || len(ret.Results) < 3 {
-				continue
-			}
-			apps := appendCallsOf(ret.Results[2])
-			for i := 0; i < len(apps); i++ {
-				ap := apps[i]
-				pos := r.Prog.Pos(instrPos(ap))
-				elems, spread := appendedElems(ap)
-				if spread != nil {
-					// duplicates returned by the duplicate filter
-					ok := false
-					detail := "spread of " + spread.String()
-					if ex, isE := spread.(*ssa.Extract); isE {
-						if c, isC := ex.Tuple.(*ssa.Call); isC {
-							if dup := staticCallee(&c.Call); dup != nil && r.Prog.IsRuleSite(dup) {
-								ok = c02DuplicatesOnly(r, dup, ex.Index)
-								detail = "duplicates from " + shortFunc(dup)
-							}
+		for _, st := range storesTo(fn, "PodToCleanUp") {
+			for _, o := range origins(st.Val) {
+				if ex, isE := o.(*ssa.Extract); isE {
+					if c, isC := ex.Tuple.(*ssa.Call); isC {
+						if cal := staticCallee(&c.Call); cal != nil && r.Prog.IsRuleSite(cal) {
+							sites = append(sites, site{cal, ex.Index})
 						}
 					}
-					r.Check("C02.Q3", "clean-up list extended by a slice", pos, shortFunc(fn), "a slice appended to the clean-up list holds only non-first duplicates of a node", ok, detail)
-					continue
 				}
-				for range elems {
-					failed := ff.Holds(ap.Block(), true, func(v ssa.Value, _ string) bool {
-						return isEqCompare(v, loadOfPath(nil, "Status", "Phase"), isConstStringVal("Failed"))
-					})
-					notInMap := ff.Holds(ap.Block(), false, func(v ssa.Value, _ string) bool {
-						ex, isE := v.(*ssa.Extract)
-						if !isE || ex.Index != 1 {
-							return false
+			}
+		}
+	}
+	if len(sites) == 0 {
+		r.Undecided("C02.Q3", "clean-up list source", "-", "-", "no repository function result is stored into Parameters.PodToCleanUp")
+		return
+	}
+	for _, s := range sites {
+		c02CleanupFunc(r, s.fn, s.idx, 0)
+	}
+}
+
+// c02CleanupFunc checks result #idx of fn (a []*Pod clean-up list).
+func c02CleanupFunc(r *Run, fn *ssa.Function, idx int, depth int) {
+	ff := computeFacts(fn)
+	for _, b := range fn.Blocks {
+		ret := returnOf(b)
+		if ret == nil || len(ret.Results) <= idx {
+			continue
+		}
+		apps := appendCallsOf(ret.Results[idx])
+		for i := 0; i < len(apps); i++ {
+			ap := apps[i]
+			pos := r.Prog.Pos(instrPos(ap))
+			elems, spread := appendedElems(ap)
+			if spread != nil {
+				// duplicates returned by the duplicate filter
+				ok := false
+				detail := "spread of " + spread.String()
+				if ex, isE := spread.(*ssa.Extract); isE {
+					if c, isC := ex.Tuple.(*ssa.Call); isC {
+						if dup := staticCallee(&c.Call); dup != nil && r.Prog.IsRuleSite(dup) {
+							ok = c02DuplicatesOnly(r, dup, ex.Index)
+							detail = "duplicates from " + shortFunc(dup)
 						}
-						l, isL := ex.Tuple.(*ssa.Lookup)
-						return isL && l.CommaOk
-					})
-					r.Check("C02.Q3", "append to clean-up list", pos, shortFunc(fn),
-						"pod appended to the clean-up list only under phase==Failed or node-not-in-eligible-map", failed || notInMap,
-						fmt.Sprintf("failed=%v notInMap=%v", failed, notInMap))
+					}
 				}
+				r.Check("C02.Q3", "clean-up list extended by a slice", pos, shortFunc(fn), "a slice appended to the clean-up list holds only non-first duplicates of a node", ok, detail)
+				continue
+			}
+			for range elems {
+				failed := ff.Holds(ap.Block(), true, func(v ssa.Value, _ string) bool {
+					return isEqCompare(v, loadOfPath(nil, "Status", "Phase"), isConstStringVal("Failed"))
+				})
+				notInMap := ff.Holds(ap.Block(), false, func(v ssa.Value, _ string) bool {
+					ex, isE := v.(*ssa.Extract)
+					if !isE || ex.Index != 1 {
+						return false
+					}
+					l, isL := ex.Tuple.(*ssa.Lookup)
+					return isL && l.CommaOk
+				})
+				r.Check("C02.Q3", "append to clean-up list", pos, shortFunc(fn),
+					"pod appended to the clean-up list only under phase==Failed or node-not-in-eligible-map", failed || notInMap,
+					fmt.Sprintf("failed=%v notInMap=%v", failed, notInMap))
 			}
 		}
 	}
@@ -252,7 +271,22 @@ func c02DuplicatesOnly(r *Run, fn *ssa.Function, idx int) bool {
 			continue
 		}
 		for _, ap := range appendCallsOf(ret.Results[idx]) {
-			elems, _ := appendedElems(ap)
+			elems, spread := appendedElems(ap)
+			if spread != nil {
+				// append(dups, pods[1:]...): everything but the first element of the (sorted) per-node list
+				n++
+				sl, isSl := spread.(*ssa.Slice)
+				lowOK := false
+				if isSl && sl.Low != nil {
+					if z, okz := constInt(sl.Low); okz && z >= 1 {
+						lowOK = true
+					}
+				}
+				if !lowOK {
+					okAll = false
+				}
+				continue
+			}
 			for range elems {
 				n++
 				if !ff.Holds(ap.Block(), false, func(v ssa.Value, _ string) bool {
